@@ -729,6 +729,12 @@ class StmtMixin:
         st.ghost["$havoc_kinds"] = hk
         env = self.inv_env(st, ls)
         st = self.havoc_locations(st, ls.modifies, env)
+        # earlier iterations may have allocated: the allocation frontier at the head of an arbitrary iteration is
+        # anywhere at or above the frontier at loop entry
+        a = self.decls.fresh("alloc_loop", INT)
+        st = st.copy()
+        st.pc.append(Le(st.alloc, a))
+        st.alloc = a
         return st
 
     def ex_While(self, st, s):
@@ -847,6 +853,7 @@ class StmtMixin:
         hb = hb.copy()
         hb.ghost["rest"] = VSeq(rest, ek)
         hb.ghost["cur"] = from_comps(ek, [x])
+        hb.ghost[f"cur{ord_}"] = from_comps(ek, [x])
         xv, hb = mk_target(hb, x)
         self.apply_hints(hb, ls.hints, self.inv_env(hb, ls))
         if extra_body_fact is not None:
